@@ -59,16 +59,19 @@ CLASSES = ["mdoc_plain", "mdoc_crlf", "mdoc_values", "mdoc_n1", "mdoc_large", "m
 
 
 def plan(tier):
+    # core.py requires HALF of the stated figure.  The figures of mdoc_read, kept_images, one_value_per_line_read, gctf_read,
+    # ctffind4_read and wedge_sg are 1.6 x what the driver's own DIRECT calls reach (measured with VERIF_BYPASS_INTERNAL=1), so the
+    # floors hold whatever cryoCAT's internal call structure is.
     if tier == "quick":
         return dict(n_cases=24 * 17, shards=2, classes=CLASSES, timeout_s=600,
-                    min_evals={"mdoc_write": 180, "mdoc_read": 400, "mdoc_roundtrip": 160, "mdoc_history": 130, "sort_by_tilt": 80,
-                               "remove_images": 100, "kept_images": 70, "one_value_per_line_read": 400, "tlt_load": 400,
-                               "total_dose_load": 200, "gctf_read": 70, "ctffind4_read": 70, "defocus_load": 50, "wedge_sg": 180, "wedge_sg_batch": 60,
+                    min_evals={"mdoc_write": 180, "mdoc_read": 1040, "mdoc_roundtrip": 160, "mdoc_history": 130, "sort_by_tilt": 80,
+                               "remove_images": 100, "kept_images": 530, "one_value_per_line_read": 900, "tlt_load": 400,
+                               "total_dose_load": 200, "gctf_read": 130, "ctffind4_read": 130, "defocus_load": 50, "wedge_sg": 440, "wedge_sg_batch": 60,
                                "wedge_em_batch": 35, "wedge_sg_to_em": 35, "index_array_unchanged": 25, "loader_truth": 350, "defocus_truth": 90, "wedge_truth": 120})
     return dict(n_cases=24 * 250, shards=12, classes=CLASSES, timeout_s=3000,
-                min_evals={"mdoc_write": 2700, "mdoc_read": 6000, "mdoc_roundtrip": 2400, "mdoc_history": 2000, "sort_by_tilt": 1200,
-                           "remove_images": 1500, "kept_images": 1000, "one_value_per_line_read": 6000, "tlt_load": 6000,
-                           "total_dose_load": 3000, "gctf_read": 1000, "ctffind4_read": 1000, "defocus_load": 750, "wedge_sg": 2700, "wedge_sg_batch": 900,
+                min_evals={"mdoc_write": 2700, "mdoc_read": 14200, "mdoc_roundtrip": 2400, "mdoc_history": 2000, "sort_by_tilt": 1200,
+                           "remove_images": 1500, "kept_images": 6800, "one_value_per_line_read": 11400, "tlt_load": 6000,
+                           "total_dose_load": 3000, "gctf_read": 2500, "ctffind4_read": 2280, "defocus_load": 750, "wedge_sg": 6400, "wedge_sg_batch": 900,
                            "wedge_em_batch": 500, "wedge_sg_to_em": 500, "index_array_unchanged": 400, "loader_truth": 5000, "defocus_truth": 1300, "wedge_truth": 1800})
 
 
@@ -968,6 +971,7 @@ def run_reuse(ctx, case):
         src = os.path.join(base, "in_%d.mdoc" % j)
         out = os.path.join(base, "out_%d.mdoc" % j)
         _write_text(src, O.render_mdoc(st))
+        direct_read(ctx, src)
         if case["via"] == "module":
             ok, m = ctx.call("mdoc.remove_images(reused index array)", md.remove_images, src, arr, numbered_from_1=case["from1"], output_file=out)
         else:
@@ -1036,6 +1040,20 @@ def _table_diffs(got, exp):
     return None, diffs
 
 
+# ---- direct calls -----------------------------------------------------------------------------------
+# Several monitored functions are normally reached only THROUGH other cryoCAT functions (Mdoc.__init__ -> _read_mdoc,
+# remove_images -> kept_images, tlt_load -> one_value_per_line_read, defocus_load -> gctf_read/ctffind4_read,
+# create_wedge_list_sg_batch -> create_wedge_list_sg).  A behaviour-preserving refactoring of that internal call structure must
+# not leave a monitor blind (INCONCLUSIVE on correct code), so the driver also calls each of them directly, with fresh
+# in-quantifier inputs and the keyword forms their signatures document; the monitors' floors are set from these direct calls.
+def direct_read(ctx, path):
+    ctx.call("Mdoc._read_mdoc(direct)", ctx.md.Mdoc._read_mdoc, file_path=path)
+
+
+def direct_kept(ctx, m):
+    ctx.call("Mdoc.kept_images(direct)", m.kept_images)
+
+
 def check_roundtrip(ctx, m, out, write_removed, label="Mdoc(written)"):
     """Mdoc(out) must equal the part of m that write() put on disk"""
     S = _state(m)
@@ -1044,6 +1062,8 @@ def check_roundtrip(ctx, m, out, write_removed, label="Mdoc(written)"):
     if not keep:
         ctx.ood("mdoc_roundtrip")
         return None
+    direct_kept(ctx, m)
+    direct_read(ctx, out)
     ok, m2 = ctx.call(label, ctx.md.Mdoc, out)
     if not ok:
         return None
@@ -1115,6 +1135,7 @@ def run_mdoc(ctx, case):
     out = os.path.join(base, "out.mdoc")
     wr = case["write"]
     _write_text(src, text)
+    direct_read(ctx, src)
     ok, m = ctx.call("Mdoc(path)", md.Mdoc, src)
     if not ok:
         return
@@ -1237,6 +1258,7 @@ def run_dose_mdoc(ctx, case):
     io, st = ctx.io, case["st"]
     path = os.path.join(ctx.scratch, "c%d" % case["i"], "ts.mdoc")
     _write_text(path, O.render_mdoc(st))
+    direct_read(ctx, path)
     tilts = np.array(st["tilts"])
     for sort in (True, False):
         ok, r = ctx.call("tlt_load(mdoc)", io.tlt_load, path, sort_angles=sort)
@@ -1456,6 +1478,33 @@ def _f3_key(e):
     return None
 
 
+def direct_wedge_inputs(ctx, case, args, truth, const_kw):
+    """direct calls (see 'direct calls' above) of the file loaders and of create_wedge_list_sg on every tomogram of the project"""
+    io, wu, c = ctx.io, ctx.wu, case["consts"]
+    for t in case["tomos"]:
+        tid = t["id"]
+        tlt = O.expand_format(args["tlt_file_format"], tid)
+        ctf = O.expand_format(args["ctf_file_format"], tid) if args["ctf_file_format"] else None
+        dose = O.expand_format(args["dose_file_format"], tid) if args["dose_file_format"] else None
+        if case["tlt_kind"] == "tlt":
+            ctx.call("one_value_per_line_read(direct)", io.one_value_per_line_read, file_path=tlt)
+        else:
+            direct_read(ctx, tlt)
+        if case["dose_kind"] == "txt":
+            ctx.call("one_value_per_line_read(direct)", io.one_value_per_line_read, file_path=dose, data_type=np.float32)
+        if case["ctf_kind"] == "gctf":
+            ctx.call("gctf_read(direct)", io.gctf_read, file_path=ctf)
+        elif case["ctf_kind"] == "ctffind4":
+            ctx.call("ctffind4_read(direct)", io.ctffind4_read, file_path=ctf)
+        if case["cls"] == "wedge_single":
+            continue                       # this class calls create_wedge_list_sg itself
+        ok, df = ctx.call("create_wedge_list_sg(direct)", wu.create_wedge_list_sg, tomo_id=tid, tomo_dim=list(t["dims"]), pixel_size=c["pixel_size"],
+                          tlt_file=tlt, z_shift=float(t["z"]), ctf_file=ctf, ctf_file_type=case["ctf_kind"] if ctf else "gctf", dose_file=dose, **const_kw)
+        if ok:
+            w = O.compare_frame(df, truth_columns(case, truth, [tid]))
+            ctx.check("wedge_truth", w is None, dict(w, call="create_wedge_list_sg(direct)") if w else None)
+
+
 def run_wedge(ctx, case):
     wu = ctx.wu
     base = os.path.join(ctx.scratch, "c%d" % case["i"])
@@ -1466,6 +1515,7 @@ def run_wedge(ctx, case):
     const_kw = {} if c["defaults"] else {"voltage": c["voltage"], "amp_contrast": c["amp_contrast"], "cs": c["cs"]}
     cls = case["cls"]
     r = ctx.rng(case["i"], 2)
+    direct_wedge_inputs(ctx, case, args, truth, const_kw)
     if cls == "wedge_single":
         t = case["tomos"][0]
         tid = t["id"]
@@ -1597,6 +1647,7 @@ def extra(ctx):
         text, toks = O.render_numbers(rng, vals, O.NUM_STYLES[n % len(O.NUM_STYLES)])
         p = os.path.join(base, "len_%d.tlt" % n)
         _write_text(p, text)
+        ctx.call("one_value_per_line_read(direct)", io.one_value_per_line_read, file_path=p)
         ok, r = ctx.call("tlt_load(file)", io.tlt_load, p)
         if ok:
             truth = np.array([float(t) for t in toks])
